@@ -32,7 +32,9 @@ pub fn mask_for(prop: &str) -> Mask {
         "ALL" => Mask { out: true, errs: "all", obs: "all", insp: true, leak: true },
         // acceptance, value, how much each sub-parser consumed (probe extents)
         "C01" | "C02" => Mask { out: true, errs: "none", obs: "ext", insp: false, leak: false },
-        "C03" | "C20" => Mask { out: false, errs: "none", obs: "none", insp: false, leak: false },
+        // acceptance and whether the result is error-free (C03: output/error consistency; C20: failure is always reported
+        // through the error list)
+        "C03" | "C20" => Mask { out: false, errs: "empty", obs: "none", insp: false, leak: false },
         // acceptance, outputs and how many tracked values were lost (the model says: none, except at listed defect sites)
         "C19" => Mask { out: true, errs: "none", obs: "none", insp: false, leak: true },
         // check vs parse is decided on the real crate (real_asserts); against the mode-free reference the model
@@ -89,6 +91,7 @@ pub fn proj_mask(m: &Mask, mode: &str, o: &J) -> J {
             }
         }
         "spans" => json!(errs.iter().map(|e| json!([e["s"], e["e"]])).collect::<Vec<_>>()),
+        "empty" => json!(errs.is_empty()),
         "last" => {
             if ok || panic {
                 J::Null
